@@ -92,6 +92,15 @@ theorem C10_exp_positions_all_histories (c : ECfg) (cap : Nat) (ops : List EOp) 
   have h := erun_refines c cap ops
   exact ⟨h.active, h.pos, fun a ha => getPos_of_not_mem h.inv (by rw [h.active]; exact ha)⟩
 
+/-- Experimental frame: a call about another agent (creation — with or without growth of the array —,
+    assignment, removal with compaction) does not change what agent `a` reads back. -/
+theorem C10_exp_frame (c : ECfg) (cap : Nat) (ops : List EOp) (op : EOp) (a : Aid)
+    (ha : a ∈ (erun c cap ops).active) (hne : op.target ≠ a) :
+    getPos (erun c cap (ops ++ [op])) a = getPos (erun c cap ops) a := by
+  have h := (erun_refines c cap ops).inv
+  simp only [erun, List.foldl_append, List.foldl_cons, List.foldl_nil]
+  exact getPos_estep_frame h op ha hne
+
 /-- Experimental, every history: the array bookkeeping is consistent — `_n_agents` is the number of agents
     and does not exceed the capacity (so every agent has a row), and `_agent_to_index` maps `active[i]`
     to `i` and nothing else to `i`. -/
@@ -213,6 +222,61 @@ theorem C10_exp_distances_exact (c : ECfg) (cap : Nat) (ops : List EOp) (pt : Po
   · rintro ⟨q, h1, h2, h3⟩; exact ⟨h1, q, h2, h3⟩
   · rintro ⟨h1, q, h2, h3⟩; exact ⟨q, h1, h2, h3⟩
 
+/-- Experimental: `calculate_distances(pt, agents=sub)` and `calculate_difference_vector(pt, agents=sub)`
+    for any list `sub` of agents of the space (repetitions allowed) answer for exactly those agents, in
+    that order, from their true positions. -/
+theorem C10_exp_subset_queries_exact (c : ECfg) (cap : Nat) (ops : List EOp) (pt : Pos) (sub : List Aid) :
+    let s := erun c cap ops
+    (∀ a ∈ sub, a ∈ s.active) →
+    (∃ l, distancesOf s pt (some sub) = .ok l ∧ l.map (·.1) = sub ∧
+      ∀ ad ∈ l, ∃ q, getPos s ad.1 = .ok q ∧ ad.2 = edist2 c pt q) ∧
+    (∃ l, diffsOf s pt (some sub) = .ok l ∧ l.map (·.1) = sub ∧
+      ∀ av ∈ l, ∃ q, getPos s av.1 = .ok q ∧ av.2 = ediff c pt q) := by
+  dsimp only
+  intro hsub
+  have h := erun_refines c cap ops
+  obtain ⟨l, h1, h2, h3⟩ := rowsOf_spec h.inv sub hsub
+  refine ⟨⟨l.map fun aq => (aq.1, edist2 (erun c cap ops).cfg pt aq.2), by simp [distancesOf, h1, Except.map], ?_, ?_⟩,
+          ⟨l.map fun aq => (aq.1, ediff (erun c cap ops).cfg pt aq.2), by simp [diffsOf, h1, Except.map], ?_, ?_⟩⟩
+  · rw [List.map_map]; exact h2
+  · intro ad had
+    obtain ⟨aq, haq, rfl⟩ := List.mem_map.mp had
+    exact ⟨aq.2, h3 aq haq, by simp only [h.cfg]⟩
+  · rw [List.map_map]; exact h2
+  · intro av hav
+    obtain ⟨aq, haq, rfl⟩ := List.mem_map.mp hav
+    exact ⟨aq.2, h3 aq haq, by simp only [h.cfg]⟩
+
+/-- Experimental: `agent.get_neighbors_in_radius(r)` (`r ≥ 0`) returns exactly the *other* agents within
+    `r` of the agent's own position, with their squared distances. -/
+theorem C10_exp_neighbors_in_radius (c : ECfg) (hw : c.WF) (cap : Nat) (ops : List EOp) (a : Aid) (p : Pos)
+    (r : Int) :
+    let s := erun c cap ops
+    a ∈ s.active → getPos s a = .ok p → 0 ≤ r →
+    ∃ res, neighborsInRadius s a r = .ok res ∧
+      ∀ b d, (b, d) ∈ res ↔
+        b ≠ a ∧ b ∈ s.active ∧ ∃ q, getPos s b = .ok q ∧ d = edist2 c p q ∧ d ≤ r * r := by
+  intro s ha hp hr
+  have h := erun_refines c cap ops
+  have hrad := (C10_exp_radius_exact c cap ops p r).1
+  have hself : (a, edist2 c p p) ∈ agentsInRadius s p r := by
+    rw [hrad]
+    refine ⟨ha, p, hp, rfl, hr, ?_⟩
+    have h0 : edist2 c p p = 0 := dist2Aux_self _ _ _ (fun d hd => by have := hw d hd; omega)
+    rw [h0]; exact Int.mul_nonneg hr hr
+  have hne : (agentsInRadius s p r).isEmpty = false := by
+    cases hl : agentsInRadius s p r with
+    | nil => rw [hl] at hself; cases hself
+    | cons x xs => rfl
+  refine ⟨_, by simp only [neighborsInRadius, hp, hne]; rfl, ?_⟩
+  intro b d
+  rw [List.mem_filter, hrad]
+  constructor
+  · rintro ⟨⟨h1, q, h2, h3, _, h5⟩, h6⟩
+    exact ⟨by simpa using h6, h1, q, h2, h3, h5⟩
+  · rintro ⟨h1, h2, q, h3, h4, h5⟩
+    exact ⟨⟨h2, q, h3, h4, hr, h5⟩, by simpa using h1⟩
+
 /-! ## k nearest -/
 
 /-- Experimental, every history, every `argpartition` meeting numpy's documented post-condition, every
@@ -236,6 +300,51 @@ theorem C10_exp_k_nearest (argpart : List Int → Nat → List Nat) (hap : ArgPa
   · intro ad had b hb hout q hq
     have := h5 ad had (b, edist2 s.cfg pt q) ((mem_zip_calcD2 h.inv pt b _).mpr ⟨q, hb, hq, rfl⟩) hout
     rw [← h.cfg]; exact this
+
+/-- Experimental: `agent.get_nearest_neighbors(k)` for `k + 1 ≤ n`, when no other agent sits exactly on
+    the agent's own position: returns `k` pairwise distinct *other* agents, each with the squared distance
+    from the agent to its true position, and no other agent left out is nearer than a returned one. -/
+theorem C10_exp_nearest_neighbors (argpart : List Int → Nat → List Nat) (hap : ArgPartSpec argpart)
+    (c : ECfg) (hw : c.WF) (cap : Nat) (ops : List EOp) (a : Aid) (p : Pos) (k : Nat) :
+    let s := erun c cap ops
+    a ∈ s.active → getPos s a = .ok p → k + 1 ≤ s.active.length →
+    (∀ b ∈ s.active, b ≠ a → ∀ q, getPos s b = .ok q → 0 < edist2 c p q) →
+    ∃ res, nearestNeighbors argpart s a k = .ok res ∧ res.length = k ∧ (res.map (·.1)).Nodup ∧
+      a ∉ res.map (·.1) ∧
+      (∀ ad ∈ res, ad.1 ∈ s.active ∧ ∃ q, getPos s ad.1 = .ok q ∧ ad.2 = edist2 c p q) ∧
+      (∀ ad ∈ res, ∀ b ∈ s.active, b ≠ a → b ∉ res.map (·.1) →
+        ∀ q, getPos s b = .ok q → ad.2 ≤ edist2 c p q) := by
+  dsimp only
+  intro ha hp hk hdist
+  obtain ⟨full, h1, h2, h3, h4, h5⟩ := C10_exp_k_nearest argpart hap c cap ops p (k + 1) (by omega) hk
+  have h0 : edist2 c p p = 0 := dist2Aux_self _ _ _ (fun d hd => by have := hw d hd; omega)
+  have hain : a ∈ full.map (·.1) := by
+    apply Classical.byContradiction
+    intro hout
+    cases hf : full with
+    | nil => rw [hf] at h2; simp at h2
+    | cons ad rest =>
+      have had : ad ∈ full := by rw [hf]; simp
+      have hle := h5 ad had a ha hout p hp
+      obtain ⟨hm, q, hq, hd⟩ := h4 ad had
+      have hne : ad.1 ≠ a := by
+        rintro e; exact hout (List.mem_map.mpr ⟨ad, had, e⟩)
+      have := hdist ad.1 hm hne q hq
+      rw [h0] at hle; omega
+  have hmemf : ∀ ad, ad ∈ full.filter (fun ad => ad.1 ≠ a) ↔ ad ∈ full ∧ ad.1 ≠ a := by
+    intro ad; rw [List.mem_filter]; simp
+  refine ⟨full.filter (fun ad => ad.1 ≠ a), by simp only [nearestNeighbors, hp, h1], ?_, ?_, ?_, ?_, ?_⟩
+  · have := length_filter_ne_of_nodup full a h3 hain; omega
+  · exact h3.sublist ((List.filter_sublist).map _)
+  · intro hm
+    obtain ⟨ad, had, e⟩ := List.mem_map.mp hm
+    exact ((hmemf ad).mp had).2 e
+  · intro ad had; exact h4 ad ((hmemf ad).mp had).1
+  · intro ad had b hb hba hout q hq
+    apply h5 ad ((hmemf ad).mp had).1 b hb _ q hq
+    intro hm
+    obtain ⟨be, hbe, e⟩ := List.mem_map.mp hm
+    exact hout (List.mem_map.mpr ⟨be, (hmemf be).mpr ⟨hbe, by rw [e]; exact hba⟩, e⟩)
 
 /-- `k = 0` returns nothing; `k` larger than the number of agents is rejected (`ValueError`). -/
 theorem C10_exp_k_nearest_range (argpart : List Int → Nat → List Nat) (c : ECfg) (cap : Nat)
@@ -288,6 +397,23 @@ theorem C10_exp_distance_symmetric (c : ECfg) (p q : Pos) : edist2 c p q = edist
 theorem C10_exp_difference_length (c : ECfg) (hw : c.WF) (p q : Pos) :
     norm2 (ediff c p q) = edist2 c p q :=
   diffAux_norm2 _ _ _ _ (fun d hd => by have := hw d hd; omega)
+
+/-- … and so every row of `calculate_difference_vector(pt)` has the squared length of the corresponding
+    entry of `calculate_distances(pt)`. -/
+theorem C10_exp_difference_rows_length (c : ECfg) (hw : c.WF) (cap : Nat) (ops : List EOp) (pt : Pos) :
+    let s := erun c cap ops
+    ∃ lv ld, diffsOf s pt none = .ok lv ∧ distancesOf s pt none = .ok ld ∧
+      lv.map (·.1) = ld.map (·.1) ∧ lv.map (fun av => norm2 av.2) = ld.map (·.2) := by
+  intro s
+  have h := erun_refines c cap ops
+  refine ⟨_, _, rfl, rfl, ?_, ?_⟩
+  · simp only [calcD2, List.zip_map_right, List.map_map]
+    apply List.map_congr_left; intro x _; rfl
+  · simp only [calcD2, List.zip_map_right, List.map_map]
+    apply List.map_congr_left
+    intro x _
+    simp only [Function.comp, Prod.map, id]
+    rw [h.cfg]; exact C10_exp_difference_length c hw pt x.2
 
 /-! ## non-vacuity: concrete histories (torus with negative origin; capacity 0 with growth and compaction) -/
 section Examples
